@@ -71,6 +71,18 @@ func c02Programs(r *vc.Rand, tier string) []*atCase {
 			return []atStmt{atGenUpdate(r, t, one), atGenInsert(r, t, one, 1, seq), atGenDelete(r, t, one)}
 		},
 	}
+	// retry-style code on one pinned connection: statement 1 may fail, statement 2 runs on the same connection
+	for pi, pk := range pks {
+		if tier != "thorough" && pi%2 == 1 {
+			continue
+		}
+		mk(pk, false, func(t *atTable, seq *int) []atStmt {
+			return []atStmt{atGenUpdate(r, t, one), atGenUpdate(r, t, many)}
+		})
+		last := out[len(out)-1]
+		last.Groups[0].Pinned, last.Groups[0].KeepGoing = true, true
+		last.Feat["pinned_retry"] = "true"
+	}
 	for gi, g := range gens {
 		for pi, pk := range pks {
 			if tier != "thorough" && (gi+pi)%3 != 0 {
@@ -293,7 +305,7 @@ func c02Clone(p *atCase, name string) *atCase {
 	nt.Def = &d
 	c.Tables = []*atTable{&nt}
 	for _, g := range p.Groups {
-		ng := atGroup{Explicit: g.Explicit}
+		ng := atGroup{Explicit: g.Explicit, Pinned: g.Pinned, KeepGoing: g.KeepGoing}
 		for _, s := range g.Stmts {
 			s2 := s
 			s2.SQL = strings.ReplaceAll(s.SQL, old, nt.Name)
@@ -396,11 +408,18 @@ func c02Judge(r *vc.Run, env *atEnv, c *atCase, o *atOutcome, f c02Fault, delive
 			viol("wrong-branch-id", fmt.Sprintf("undo_log row carries branch id %s, the coordinator granted %d", mm.TextOf(undoIns.Args[0]), tx.RegReply.Msg.I("branchId")))
 		}
 	}
+	// writes that reached the database outside any proxied local transaction (plain autocommit statements)
+	for _, j := range o.Journal {
+		if (j.Class == "proxied" || j.Class == "app") && stmtIsDML(j) && strings.EqualFold(j.Table, def.Name) && !j.InTxBefore && len(j.Committed) > 0 {
+			viol("unproxied-write", fmt.Sprintf("inside the global transaction a business statement ran in plain autocommit mode on the underlying connection (no local transaction, no branch, no undo log): %s", clipStr(j.SQL, 160)))
+			break
+		}
+	}
 	// (c) failure outcome
-	if !callerOK && anyDurable && !c02ErrAfterCommit(o, f) {
+	if !callerOK && anyDurable && !c02ErrAfterCommit(o, f) && c.Feat["pinned_retry"] != "true" {
 		viol("error-but-durable", "the caller got an error ("+clipStr(o.Res.Err, 160)+") but business rows are durable")
 	}
-	if callerOK && f.Kind != "none" && delivered && strings.HasPrefix(f.Kind, "register-") {
+	if callerOK && f.Kind != "none" && delivered && strings.HasPrefix(f.Kind, "register-") && c.Feat["pinned_retry"] != "true" {
 		viol("refusal-swallowed", "the coordinator did not grant the registration ("+f.Kind+") but the call returned nil")
 	}
 	if callerOK {
